@@ -1,3 +1,446 @@
-use crate::util::Out;
-pub fn generate(_seed: u64, _tier: &str) -> Vec<String> { vec![] }
-pub fn run(_ops: &[String], _out: &mut Out) -> Result<(), String> { Err("not implemented".into()) }
+//! C24 — the server enforces authentication and per-database permissions.
+//! Generated multi-user request sequences (`req …` lines, see reqs.rs) against the real server, with an
+//! independent permission oracle: a request may be PERFORMED (2xx) only if the caller holds a valid token
+//! and the documented permission; otherwise it must be rejected and leave the observable state unchanged.
+
+use crate::reqs::{is_mutating, name, Exec};
+use crate::srv::Server;
+use crate::util::{hex, Out, Rng};
+use std::collections::{BTreeMap, BTreeSet};
+
+#[derive(Clone, Copy, PartialEq, Eq, PartialOrd, Ord, Debug)]
+enum Role {
+    Read,
+    Write,
+    Admin,
+}
+
+fn role(s: &str) -> Role {
+    match s {
+        "admin" => Role::Admin,
+        "write" => Role::Write,
+        _ => Role::Read,
+    }
+}
+
+#[derive(Default)]
+struct Perm {
+    pwd: BTreeMap<String, String>,
+    /// t<k> -> user (only while valid)
+    tokens: BTreeMap<u64, String>,
+    dbs: BTreeMap<(String, String), BTreeMap<String, Role>>,
+}
+
+impl Perm {
+    fn fresh() -> Self {
+        let mut p = Perm::default();
+        p.pwd.insert("admin".into(), "admin".into());
+        p.tokens.insert(1, "admin".into());
+        p
+    }
+    fn caller(&self, cred: &str) -> Option<String> {
+        cred.strip_prefix('t')
+            .and_then(|k| k.parse::<u64>().ok())
+            .and_then(|k| self.tokens.get(&k).cloned())
+    }
+    fn role(&self, user: &str, o: &str, d: &str) -> Option<Role> {
+        self.dbs.get(&(o.to_string(), d.to_string())).and_then(|m| m.get(user).copied())
+    }
+
+    /// the documented permission for the request (independent of the server and of the Lean model)
+    fn allowed(&self, t: &[&str]) -> bool {
+        let route = t[0];
+        let n = |i: usize| t.get(i).and_then(|h| name(h)).unwrap_or_default();
+        if route == "login" {
+            return self.pwd.get(&n(1)) == Some(&n(2));
+        }
+        let Some(caller) = self.caller(t[1]) else { return false };
+        if route.starts_with('a') {
+            return caller == "admin";
+        }
+        let (o, d) = (n(2), n(3));
+        let r = self.role(&caller, &o, &d);
+        match route {
+            "logout" | "ustatus" | "dblist" => true,
+            "chpw" => self.pwd.get(&caller) == Some(&n(2)),
+            "dbadd" => caller == o,
+            "dbdelete" | "dbremove" => caller == o && r.is_some(),
+            // renaming to the same name is answered 201 without doing anything, also for a database that
+            // does not exist: nothing is performed, so only ownership is required here
+            "dbrename" => caller == o && (r.is_some() || n(4) == d),
+            "dbbackup" | "dbrestore" | "dbclear" | "dbuseradd" => r == Some(Role::Admin),
+            "dbuserremove" => r == Some(Role::Admin) || (r.is_some() && caller == n(4)),
+            "dboptimize" => r >= Some(Role::Write),
+            "dbexecmut" => {
+                let mutating = t.get(4).map(|b| b.split(',').any(is_mutating)).unwrap_or(false);
+                if mutating { r >= Some(Role::Write) } else { r >= Some(Role::Write) }
+            }
+            "dbexec" => {
+                let mutating = t.get(4).map(|b| b.split(',').any(is_mutating)).unwrap_or(false);
+                r.is_some() && !mutating
+            }
+            "dbaudit" | "dbuserlist" | "dbcopy" => r.is_some(),
+            _ => false,
+        }
+    }
+
+    /// track the consequences of a performed request
+    fn performed(&mut self, t: &[&str], tok_issued: Option<u64>) {
+        let route = t[0];
+        let n = |i: usize| t.get(i).and_then(|h| name(h)).unwrap_or_default();
+        let caller = if route == "login" { None } else { self.caller(t[1]) };
+        let key = |o: String, d: String| (o, d);
+        match route {
+            "login" => {
+                if let Some(k) = tok_issued {
+                    self.tokens.insert(k, n(1));
+                }
+            }
+            "logout" => {
+                if t.get(2) == Some(&"all") {
+                    if let Some(c) = caller {
+                        self.tokens.retain(|_, u| *u != c);
+                    }
+                } else if let Some(k) = t[1].strip_prefix('t').and_then(|k| k.parse::<u64>().ok()) {
+                    self.tokens.remove(&k);
+                }
+            }
+            "chpw" => {
+                if let Some(c) = caller {
+                    self.pwd.insert(c, n(3));
+                }
+            }
+            "auserchpw" => {
+                self.pwd.insert(n(2), n(3));
+            }
+            "auseradd" => {
+                self.pwd.insert(n(2), n(3));
+            }
+            "auserdelete" => {
+                let u = n(2);
+                self.pwd.remove(&u);
+                self.tokens.retain(|_, x| *x != u);
+                self.dbs.retain(|k, _| k.0 != u);
+                for m in self.dbs.values_mut() {
+                    m.remove(&u);
+                }
+            }
+            "auserlogout" => {
+                let u = n(2);
+                self.tokens.retain(|_, x| *x != u);
+            }
+            "alogoutall" => self.tokens.retain(|_, x| x == "admin"),
+            "dbadd" | "adbadd" => {
+                let mut m = BTreeMap::new();
+                m.insert(n(2), Role::Admin);
+                self.dbs.insert(key(n(2), n(3)), m);
+            }
+            "dbcopy" => {
+                if let Some(c) = caller {
+                    let mut m = BTreeMap::new();
+                    m.insert(c.clone(), Role::Admin);
+                    self.dbs.insert(key(c, n(4)), m);
+                }
+            }
+            "adbcopy" => {
+                let mut m = BTreeMap::new();
+                m.insert(n(4), Role::Admin);
+                self.dbs.insert(key(n(4), n(5)), m);
+            }
+            "dbrename" => {
+                if n(4) != n(3) {
+                    if let Some(m) = self.dbs.remove(&key(n(2), n(3))) {
+                        self.dbs.insert(key(n(2), n(4)), m);
+                    }
+                }
+            }
+            "adbrename" => {
+                if (n(2), n(3)) != (n(4), n(5)) {
+                    if let Some(mut m) = self.dbs.remove(&key(n(2), n(3))) {
+                        if n(2) != n(4) {
+                            m.insert(n(4), Role::Admin);
+                        }
+                        self.dbs.insert(key(n(4), n(5)), m);
+                    }
+                }
+            }
+            "dbdelete" | "dbremove" | "adbdelete" | "adbremove" => {
+                self.dbs.remove(&key(n(2), n(3)));
+            }
+            "dbuseradd" | "adbuseradd" => {
+                if let Some(m) = self.dbs.get_mut(&key(n(2), n(3))) {
+                    m.insert(n(4), role(t.get(5).copied().unwrap_or("read")));
+                }
+            }
+            "dbuserremove" | "adbuserremove" => {
+                if let Some(m) = self.dbs.get_mut(&key(n(2), n(3))) {
+                    m.remove(&n(4));
+                }
+            }
+            _ => {}
+        }
+    }
+}
+
+pub fn run(ops: &[String], out: &mut Out) -> Result<(), String> {
+    let mut server = Server::start("C24", 3600)?;
+    run_with(&mut server, ops, out, "C24")
+}
+
+pub fn run_with(server: &mut Server, ops: &[String], out: &mut Out, prop: &str) -> Result<(), String> {
+    let mut ex = Exec::new(server);
+    let mut perm = Perm::fresh();
+    let mut in_case = false;
+    let mut case_text = String::new();
+    let mut nontrivial = false;
+    for l in ops {
+        if let Some(n) = l.strip_prefix("case ") {
+            if in_case {
+                ex.end_case();
+                out.note_case(&case_text, nontrivial);
+            }
+            in_case = true;
+            case_text.clear();
+            nontrivial = false;
+            out.case = n.trim().parse().unwrap_or(0);
+            ex.start_case()?;
+            perm = Perm::fresh();
+            out.line(l.clone(), l.clone());
+            continue;
+        }
+        let t: Vec<&str> = l.split(' ').collect();
+        if t.len() < 2 || t[0] != "req" {
+            out.line(l.clone(), "bad-op".into());
+            continue;
+        }
+        let t = &t[1..];
+        case_text.push_str(l);
+        case_text.push('\n');
+        out.count(&format!("route:{}", t[0]));
+        let allowed = perm.allowed(t);
+        let before = if !allowed { Some(ex.fingerprint()) } else { None };
+        let tok_before = ex.next_tok;
+        let (st, line) = ex.exec(t);
+        out.count(&format!("status:{st}"));
+        let ok = (200..300).contains(&st);
+        if !allowed {
+            nontrivial = true;
+            out.count("oracle:must-reject");
+            if ok {
+                out.violation(
+                    &format!("{prop}/unauthorized-performed/routes::{}", t[0]),
+                    "performed only with a valid token and the documented permission",
+                    "4xx",
+                    &format!("{st} for `{l}`"),
+                );
+            }
+            let after = ex.fingerprint();
+            if Some(&after) != before.as_ref() {
+                out.violation(
+                    &format!("{prop}/rejected-request-had-effect/routes::{}", t[0]),
+                    "a rejected request has no effect",
+                    before.as_deref().unwrap_or(""),
+                    &after,
+                );
+            }
+        } else {
+            out.count("oracle:may-perform");
+        }
+        if ok {
+            let issued = if ex.next_tok > tok_before { Some(tok_before) } else { None };
+            perm.performed(t, issued);
+        }
+        out.line(l.clone(), line);
+    }
+    if in_case {
+        ex.end_case();
+        out.note_case(&case_text, nontrivial);
+    }
+    Ok(())
+}
+
+pub fn generate(seed: u64, tier: &str) -> Vec<String> {
+    let mut r = Rng::new(seed ^ 0x24);
+    let ncases = if tier == "thorough" { 600 } else { 30 };
+    let len = if tier == "thorough" { 60 } else { 40 };
+    let mut ops = Vec::new();
+    let users = ["usr0", "usr1", "usr2", "usr3"];
+    let dbs = ["d0", "d1", "d2"];
+    let kinds = ["memory", "mapped", "file"];
+    let roles = ["read", "write", "admin"];
+    let h = |s: &str| hex(s.as_bytes());
+    for case in 1..=ncases {
+        ops.push(format!("case {case}"));
+        // model-side bookkeeping only to bias the generator (never used as an oracle)
+        let mut next_tok = 2u64;
+        let mut toks: Vec<(u64, usize)> = Vec::new(); // (token, user index)
+        let mut stale: Vec<u64> = Vec::new();
+        let mut pwds: Vec<String> = users.iter().map(|u| format!("password-{u}")).collect();
+        let mut added: BTreeSet<usize> = BTreeSet::new();
+        let nu = 2 + r.below(3);
+        for i in 0..nu {
+            ops.push(format!("req auseradd t1 {} {}", h(users[i]), h(&pwds[i])));
+            added.insert(i);
+            ops.push(format!("req login {} {}", h(users[i]), h(&pwds[i])));
+            toks.push((next_tok, i));
+            next_tok += 1;
+        }
+        for _ in 0..len {
+            // credential: mostly a live user token
+            let pick_cred = |r: &mut Rng, toks: &Vec<(u64, usize)>, stale: &Vec<u64>| -> (String, Option<usize>) {
+                let x = r.below(100);
+                if x < 72 && !toks.is_empty() {
+                    let (k, u) = toks[r.below(toks.len())];
+                    (format!("t{k}"), Some(u))
+                } else if x < 80 && !stale.is_empty() {
+                    (format!("t{}", stale[r.below(stale.len())]), None)
+                } else if x < 86 {
+                    ("none".into(), None)
+                } else if x < 92 {
+                    ("junk".into(), None)
+                } else {
+                    ("t1".into(), None)
+                }
+            };
+            let (cred, cu) = pick_cred(&mut r, &toks, &stale);
+            let owner = if r.chance(7, 10) && cu.is_some() { users[cu.unwrap()] } else { users[r.below(nu)] };
+            let db = dbs[r.below(dbs.len())];
+            let extra = if r.chance(1, 10) { 1 } else { 0 };
+            let other = users[r.below(nu + extra).min(3)];
+            let batch_w = ["n1", "n2,c", "a6b31,n1", "n1,x:#0"][r.below(4)];
+            let batch_r = ["c", "c,c", "s:@6b31"][r.below(3)];
+            let line = match r.below(40) {
+                0..=4 => format!("req dbadd {cred} {} {} {}", h(owner), h(db), kinds[r.below(3)]),
+                5..=9 => format!("req dbexecmut {cred} {} {} {batch_w}", h(owner), h(db)),
+                10..=11 => format!("req dbexecmut {cred} {} {} {batch_r}", h(owner), h(db)),
+                12..=14 => format!("req dbexec {cred} {} {} {batch_r}", h(owner), h(db)),
+                15 => format!("req dbexec {cred} {} {} {batch_w}", h(owner), h(db)),
+                16..=19 => format!("req dbuseradd {cred} {} {} {} {}", h(owner), h(db), h(other), roles[r.below(3)]),
+                20..=21 => format!("req dbuserremove {cred} {} {} {}", h(owner), h(db), h(other)),
+                22 => format!("req dbuserlist {cred} {} {}", h(owner), h(db)),
+                23 => format!("req dblist {cred}"),
+                24 => format!("req dbbackup {cred} {} {}", h(owner), h(db)),
+                25 => format!("req dbrestore {cred} {} {}", h(owner), h(db)),
+                26 => format!("req dbclear {cred} {} {} {}", h(owner), h(db), ["all", "db", "audit", "backup"][r.below(4)]),
+                27 => format!("req dbcopy {cred} {} {} {}", h(owner), h(db), h(dbs[r.below(3)])),
+                28 => format!("req dbrename {cred} {} {} {}", h(owner), h(db), h(dbs[r.below(3)])),
+                29 => format!("req dbdelete {cred} {} {}", h(owner), h(db)),
+                30 => format!("req dbremove {cred} {} {}", h(owner), h(db)),
+                31 => format!("req dboptimize {cred} {} {}", h(owner), h(db)),
+                32 => format!("req dbaudit {cred} {} {}", h(owner), h(db)),
+                33 => {
+                    // logout: the token becomes stale
+                    if let Some(k) = cred.strip_prefix('t').and_then(|k| k.parse::<u64>().ok()) {
+                        if k != 1 {
+                            if let Some(u) = cu {
+                                let all = r.chance(1, 3);
+                                if all {
+                                    for (t, x) in toks.clone() {
+                                        if x == u {
+                                            stale.push(t);
+                                        }
+                                    }
+                                    toks.retain(|(_, x)| *x != u);
+                                } else {
+                                    toks.retain(|(t, _)| *t != k);
+                                    stale.push(k);
+                                }
+                                format!("req logout {cred} {}", if all { "all" } else { "one" })
+                            } else {
+                                format!("req logout {cred} one")
+                            }
+                        } else {
+                            format!("req ustatus {cred}")
+                        }
+                    } else {
+                        format!("req logout {cred} one")
+                    }
+                }
+                34 => {
+                    let u = r.below(nu);
+                    let good = r.chance(4, 5);
+                    if good && added.contains(&u) {
+                        toks.push((next_tok, u));
+                        next_tok += 1;
+                    }
+                    format!("req login {} {}", h(users[u]), h(if good { &pwds[u] } else { "wrong-password" }))
+                }
+                35 => {
+                    // admin-side user management with a random credential
+                    let u = r.below(nu);
+                    match r.below(4) {
+                        0 => {
+                            if cred == "t1" {
+                                for (t, x) in toks.clone() {
+                                    if x == u {
+                                        stale.push(t);
+                                    }
+                                }
+                                toks.retain(|(_, x)| *x != u);
+                            }
+                            format!("req auserlogout {cred} {}", h(users[u]))
+                        }
+                        1 => format!("req auserlist {cred}"),
+                        2 => format!("req adblist {cred}"),
+                        _ => {
+                            if cred == "t1" {
+                                pwds[u] = format!("changed-{case}-{u}");
+                                format!("req auserchpw {cred} {} {}", h(users[u]), h(&pwds[u]))
+                            } else {
+                                format!("req auserchpw {cred} {} {}", h(users[u]), h("hijacked-password"))
+                            }
+                        }
+                    }
+                }
+                36 => match r.below(5) {
+                    0 => format!("req adbadd {cred} {} {} {}", h(owner), h(db), kinds[r.below(3)]),
+                    1 => format!("req adbuseradd {cred} {} {} {} {}", h(owner), h(db), h(other), roles[r.below(3)]),
+                    2 => format!("req adbexecmut {cred} {} {} {batch_w}", h(owner), h(db)),
+                    3 => format!("req adbrename {cred} {} {} {} {}", h(owner), h(db), h(users[r.below(nu)]), h(dbs[r.below(3)])),
+                    _ => format!("req adbuserremove {cred} {} {} {}", h(owner), h(db), h(other)),
+                },
+                37 => {
+                    if cred == "t1" && r.chance(1, 2) {
+                        let u = r.below(nu);
+                        for (t, x) in toks.clone() {
+                            if x == u {
+                                stale.push(t);
+                            }
+                        }
+                        toks.retain(|(_, x)| *x != u);
+                        added.remove(&u);
+                        format!("req auserdelete {cred} {}", h(users[u]))
+                    } else {
+                        format!("req adbdelete {cred} {} {}", h(owner), h(db))
+                    }
+                }
+                38 => {
+                    if let Some(u) = cu {
+                        let good = r.chance(2, 3);
+                        let old = if good { pwds[u].clone() } else { "not-my-password".to_string() };
+                        let new = format!("newpass-{case}-{}", r.below(1000));
+                        if good {
+                            pwds[u] = new.clone();
+                        }
+                        format!("req chpw {cred} {} {}", h(&old), h(&new))
+                    } else {
+                        format!("req chpw {cred} {} {}", h("whatever1"), h("whatever2"))
+                    }
+                }
+                _ => {
+                    if cred == "t1" && r.chance(1, 3) {
+                        for (t, _) in toks.clone() {
+                            stale.push(t);
+                        }
+                        toks.clear();
+                        format!("req alogoutall {cred}")
+                    } else {
+                        format!("req ustatus {cred}")
+                    }
+                }
+            };
+            ops.push(line);
+        }
+    }
+    ops
+}
